@@ -12,6 +12,7 @@ RULE = ("witness step functions report every execution (node, seq seen by the st
         "episode with >=1 overridden supervisor step, >=1 masked slot, or a carried-over start; distinct by spec digest x "
         "episode x driving mode")
 RULE += ' Built later: compiled rollouts after a late start (starting_step > 0); ragged stacks whose shortest episode is not the first.'
+RULE += ' Built later: async graphs run with three record settings (everything / none, which is the default / everything but outputs): the tick set of the record at stop() depends on it.'
 MIN_NONTRIVIAL = {"quick": 10, "thorough": 100}
 DECIDING = ["calls_observed", "ticks_expected"]
 ASSUMPTIONS = ["jax's ordered io_callback fires exactly once per executed call site (validated on the prototype: once per scheduled "
@@ -44,7 +45,11 @@ def run_async(case):
     spec = S.rand_live(case["spec_seed"])
     dg = S.digest(spec)
     jit_step = {n["name"]: rnd.random() < 0.6 for n in spec["nodes"]}
-    g, nodes, sup, gs0 = D.build_graph(spec, clock="sim", rtf=0, jit_step=jit_step, max_records=1000, init_seed=case["spec_seed"])
+    # record settings: everything / rex's own default (no optional field) / everything but outputs. Whether outputs are recorded
+    # changes how push_step files the ticks that are still queued when stop() arrives, so the tick set of the record differs.
+    off = dict(params=False, rng=False, inputs=False, state=False, output=False)
+    recset = random.Random(case["spec_seed"] + 77).choice([None, off, off, dict(params=True, rng=True, inputs=True, state=True, output=False)])
+    g, nodes, sup, gs0 = D.build_graph(spec, clock="sim", rtf=0, jit_step=jit_step, max_records=1000, init_seed=case["spec_seed"], record=recset)
     m = D.Monitor(seed=case["spec_seed"], p_sleep=0.05, max_sleep=0.002).install()
     idx2name = {n.idx: k for k, n in nodes.items()}
     items, counters, samples = [], Counter(), []
